@@ -265,14 +265,14 @@ Qed.
 Lemma long_example :
   let ops := expand_ops [LPushRun 65536 65535 65535 0 0; LOne (OPeek true); LOne (OPeekAtSeq 65535);
                          LOne (OClear false); LOne (OPeekAtSeq 65535); LOne OPop] in
-  skipn 65536 (cjb_run 1 ops) =
+  skipn (Z.to_nat 65536) (cjb_run 1 ops) =
   [(RErr ErrBufferUnderrun, []); (RPkt 0 65535 0, []); (RUnit, []); (RErr ErrNotFound, []);
    (RErr ErrInvalidOperation, [EvBufferUnderflow])].
 Proof. intros ops. rewrite <- fjb_run_eq_cjb_run. vm_compute. reflexivity. Qed.
 
 (* minimum-start count 150 > overflow length 100: refused with 149 buffered, playing with 150 *)
 Lemma min_example :
-  let ps := map (fun k => (65500 + Z.of_nat k, Z.of_nat k)) (seq 0 149) in
+  let ps := map (fun k => (u16 (65500 + Z.of_nat k), Z.of_nat k)) (seq 0 149) in
   nth_error (cjb_run 150 (push_ops ps ++ [OPop])) 149 = Some (RErr ErrPopWhileBuffering, []) /\
   nth_error (cjb_run 150 (push_ops (ps ++ [(113, 149)]) ++ [OPop])) 150 = Some (RPkt 0 65500 0, []).
 Proof. vm_compute. split; reflexivity. Qed.
